@@ -106,7 +106,7 @@ def _project(seed):
         for _ in range(rnd.randint(0, 4) if earlier else 0):
             src, _p = rnd.choice(earlier)
             kind, obj = rnd.choice(defs[src])
-            style = rnd.choice(['from', 'from_as', 'import', 'import_as', 'relative', 'star', 'class_scope', 'alias_assign'])
+            style = rnd.choice(['from', 'from_as', 'import', 'import_as', 'relative', 'star', 'class_scope', 'alias_assign', 'guarded'])
             parts = src.split('.')
             if style == 'from' and obj not in bound:
                 lines.append(f'from {src} import {obj}')
@@ -157,8 +157,21 @@ def _project(seed):
                         lines.append(f'from {src2} import {obj2} as {sh}')
                         bound.add(sh)
                         body += f'\n    from {src} import {obj} as {sh}\n    {fresh("via")} = {sh}'
+                        # ... and an alias assignment in the class body under a name that the module binds to something else
+                        mo = fresh('mo')
+                        lines.append(f'from {src2} import {obj2} as {mo}')
+                        bound.add(mo)
+                        body += f'\n    {mo} = {a}'
                 lines.append(body)
                 defs.setdefault(name, []).append(('class', c))
+            elif style == 'guarded':
+                # executed on import / not executed on import (the names gm<N> are never bound)
+                a, b = fresh('gd'), fresh('gm')
+                if rnd.random() < 0.5:
+                    lines.append(f"if __name__ != '__main__':\n    from {src} import {obj} as {a}\nelse:\n    from {src} import {obj} as {b}")
+                else:
+                    lines.append(f"if __name__ == '__main__':\n    from {src} import {obj} as {b}\nif '__main__' != __name__:\n    from {src} import {obj} as {a}")
+                bound.add(a)
             elif style == 'alias_assign':
                 a = fresh('md')
                 b = fresh('as')
@@ -308,6 +321,22 @@ def _check(case):
                 if got is not None:
                     fails.append({'observed': f'in module {scope}, {short!r} resolves to {got.fullName()} although Python binds no such name there',
                                   'required': 'resolves to what Python would bind it to, or not at all', 'class': 'phantom-binding'})
+        # ... nor does a name that some other scope binds (an alias of a class body, of another module) or that no scope binds at all
+        # (the gm<N> names under `if __name__ == '__main__':`) resolve in a module that does not bind it
+        import re as _re
+        other_names = {n for names in runtime.values() for n in names if '.' not in n} | set(_re.findall(r' as (gm\d+)', '\n'.join(files.values())))
+        tops = {m.split('.')[0] for m in order}
+        for scope, names in runtime.items():
+            ctx = system.allobjects.get(scope)
+            if ctx is None or scope not in order:
+                continue
+            for short in sorted(other_names - set(names) - tops - set(all_defs)):
+                if short.startswith('__'):
+                    continue
+                got = ctx.resolveName(short)
+                if got is not None:
+                    fails.append({'observed': f'in module {scope}, {short!r} resolves to {got.fullName()} although Python binds no such name there',
+                                  'required': 'resolves to what Python would bind it to, or not at all', 'class': 'phantom-alias'})
         if checked == 0:
             return None
         return fails or None
